@@ -75,12 +75,18 @@ class Number(Field):
         super().__set__(instance, value)
 
 
+def _require_number(field, value):
+    if not isinstance(value, (float, int, Decimal)):
+        raise TypeError(f"{field._name}: Got {wrap_val(value)}; Expected a number")
+
+
 class Positive(Number):
     """
     An extension of :class:`Number`. Requires the number to be positive
     """
 
     def __set__(self, instance, value):
+        _require_number(self, value)
         if value <= 0:
             raise ValueError(f"{self._name}: Got {value}; Expected a positive number")
         super().__set__(instance, value)
@@ -92,6 +98,7 @@ class NonPositive(Number):
     """
 
     def __set__(self, instance, value):
+        _require_number(self, value)
         if value > 0:
             raise ValueError(
                 f"{self._name}: Got {value}; Expected a negative number or 0"
@@ -105,6 +112,7 @@ class Negative(Number):
     """
 
     def __set__(self, instance, value):
+        _require_number(self, value)
         if value >= 0:
             raise ValueError(f"{self._name}: Got {value}; Expected a negative number")
         super().__set__(instance, value)
@@ -116,6 +124,7 @@ class NonNegative(Number):
     """
 
     def __set__(self, instance, value):
+        _require_number(self, value)
         if value < 0:
             raise ValueError(
                 f"{self._name}: Got {value}; Expected a positive number or 0"
